@@ -19,7 +19,7 @@ if [ -f "$D/patch.diff" ]; then
 fi
 mkdir -p "$BASE/verif"
 # the committed machinery (HEAD), not the working tree: edits in progress must not leak into a run
-git -C /verif archive HEAD -- . ':!seeded' ':!evidence' | ( cd "$BASE/verif" && tar xf - )
+git -C /verif archive ${VERIF_COMMIT:-HEAD} -- . ':!seeded' ':!evidence' | ( cd "$BASE/verif" && tar xf - )
 mkdir -p "$BASE/verif/evidence" "$BASE/verif/replays"
 sed -i "s#path = \"/repo\"#path = \"$BASE/repo\"#" "$BASE/verif/sim/Cargo.toml" "$BASE/verif/miri-c14/Cargo.toml"
 sed -i "s#^REPO = \"/repo\"#REPO = \"$BASE/repo\"#" "$BASE/verif/tools/gen_shadow.py"
